@@ -99,7 +99,20 @@ def c20_2(c: Ctx) -> None:
 
     acq = {n.id for n in g.live_nodes() if q.node_has_await(n) and any(call_name(x) == 'acquire' for x in q.node_calls(n))}
     trues = [n for n in g.live_nodes() if n.kind == 'return' and isinstance(n.ast.value, ast.Constant) and n.ast.value.value is True]
-    c.floor(len(trues), 1, '`return True` in _acquire_asyncio_semaphore')
+    # the acquisition belongs to the calling task: `semaphore.acquire()` is awaited in place (under asyncio.timeout / wait_for), never handed to a separate
+    # task or future — a detached acquisition outlives a cancelled caller, takes a slot later, and nobody ever releases it
+    for call in [x for x in own_nodes(u.node) if isinstance(x, ast.Call) and call_name(x) == 'acquire' and isinstance(x.func, ast.Attribute)]:
+        par = parent(call)
+        wrapped = isinstance(par, ast.Call) and call_name(par) in ('ensure_future', 'create_task', 'gather', 'run_coroutine_threadsafe', 'shield')
+        if isinstance(par, ast.Await) or (isinstance(par, ast.Call) and call_name(par) == 'wait_for' and isinstance(parent(par), ast.Await)):
+            c.ok(where(u, call), f'`{U(call)}` is awaited by the calling task itself')
+        elif wrapped:
+            c.fail(u, f'`{U(par)[:70]}` detaches the acquisition from the calling task', 'a caller cancelled while queued on the semaphore leaves its acquisition running: it takes a slot later that nobody releases '
+                   '(the limit shrinks by one for good)', node=call)
+        else:
+            c.fail(u, f'`{U(call)}` is not awaited in place', 'the acquisition coroutine is not awaited by the caller: no slot is held when the function runs', node=call)
+    if not trues:
+        c.fail(u, 'no `return True` after an awaited acquire', 'a successful acquisition is not reported as a definite True: the wrapper cannot tell whether it must release the semaphore')
     for rn in trues:
         p = search([(g.entry, ())], is_target=lambda n, d: n is rn, is_barrier=lambda n, d: n.id in acq)
         if p is None and acq:
@@ -219,6 +232,20 @@ def c20_6(c: Ctx) -> None:
 LOOP_BOUND = ('asyncio.Semaphore', 'asyncio.Event', 'asyncio.Lock', 'asyncio.Condition', 'asyncio.Queue', 'asyncio.Future')
 
 
+def _compares_with_running_loop(u: Unit, x: ast.AST) -> bool:
+    """`<remembered loop> is not / != <running loop>` (either order): one operand is asyncio.get_running_loop() or a local bound to it, the other is not."""
+    if not (isinstance(x, ast.Compare) and len(x.ops) == 1 and isinstance(x.ops[0], (ast.IsNot, ast.NotEq, ast.Is, ast.Eq))):
+        return False
+    running = {n.targets[0].id for n in own_nodes(u.node) if isinstance(n, ast.Assign) and isinstance(n.targets[0], ast.Name) and isinstance(n.value, ast.Call)
+               and call_name(n.value) in ('get_running_loop', 'get_event_loop')}
+
+    def is_running(e: ast.AST) -> bool:
+        return (isinstance(e, ast.Call) and call_name(e) in ('get_running_loop', 'get_event_loop')) or (isinstance(e, ast.Name) and e.id in running)
+
+    a, b = x.left, x.comparators[0]
+    return is_running(a) != is_running(b) and not any(isinstance(o, ast.Constant) for o in (a, b))
+
+
 @ob('C20.5', 'SIB', 'a loop-bound asyncio primitive cached in a module-level container must be validated against the running event loop when it is retrieved (as '
     'ReentrantLock._get_semaphore does); otherwise every contended use in a later event loop fails')
 def c20_5(c: Ctx) -> None:
@@ -246,7 +273,7 @@ def c20_5(c: Ctx) -> None:
             for s_ in ss:
                 gi = q.enclosing(s_, (ast.If,))
                 # the (re)creation guard must include a comparison of the remembered loop with the running loop
-                if not (has_loop and gi is not None and any(isinstance(x, ast.Compare) and 'loop' in U(x).lower() for x in ast.walk(gi.test))):
+                if not (has_loop and gi is not None and any(_compares_with_running_loop(u, x) for x in ast.walk(gi.test))):
                     unchecked.append(s_)
             prim = U(ss[0].value.func)
             if not unchecked:
